@@ -85,5 +85,42 @@ CHECK = LineCheck("C19", ["SimVerif.Props.C19"], "h_pcap", ["h_pcap.cpp"], "pcap
     "records for random TCP/UDP sends: payload sizes 0,1,1475,boundary 65495/65507 and beyond, times incl. second boundaries, sub-microsecond remainders, > 2^32 ns, wrap of the seconds field; ports 1..65535; addresses over the whole range; sequence counters incl. 0 and 2^32-1; plus malformed commands; non-trivial = a record with non-empty payload; distinct = distinct command",
     TRUSTED, ASSUME, chunk=400, extra_args=lambda wd: [wd])
 
+# ---- stage 2: whole simulations with capture on -------------------------------------------
+from props.common import ScenarioCheck
+from specs import pcap_trace
+import net_gen
+import vlib, time
+
+def gen2(seed, tier):
+    n = 250 if tier == "quick" else 6000
+    fams = ["tcp", "tcp_heavy", "udp", "mixed"]
+    out = []
+    for i, f in enumerate(fams):
+        out += net_gen.generate(seed * 10 + i, tier, f, n // len(fams), pcap=True)
+    return out
+
+def nontrivial2(impl):
+    return any(l.startswith("F pcap ") and len(l) > 200 for l in impl)
+
+SIM = ScenarioCheck("C19", ["SimVerif.Props.C19"], "kernel", gen2, pcap_trace.check, nontrivial2,
+    "whole simulations among IPv4 nodes with capture on (TCP connections in both directions, lossy routes with retransmission, closing segments, UDP datagrams incl. unbound destinations and don't-fragment discards): the capture file is predicted byte for byte by the Lean world model (same Pcap encoder the theorems are about) and re-read by an independent parser compared with the first-hop probes' view of every send",
+    TRUSTED + ["world model SimVerif/Net.lean + Tcp.lean places the capture calls where send_packet / send_to_impl have them; which sends reach the capture is validated by exact file equality on generated simulations, not proved"],
+    ASSUME, spec_scn=True)
+
 def run(tier, seed, replay):
-    return CHECK.run(tier, seed, replay)
+    if replay:
+        return (SIM if replay.endswith(".scn") else CHECK).run(tier, seed, replay)
+    t0 = time.time()
+    rc1 = CHECK.run(tier, seed, None, write=False)
+    cov1, v1, _ = CHECK.last
+    rc2 = SIM.run(tier, seed, None, write=False)
+    cov2, v2, _ = SIM.last
+    cov = dict(cov1)
+    cov["evaluations"] = cov1["evaluations"] + cov2["evaluations"]
+    cov["distinct_nontrivial"] = cov1["distinct_nontrivial"] + cov2["distinct_nontrivial"]
+    cov["traces_validated_against_impl"] = cov1["traces_validated_against_impl"] + cov2["traces_validated_against_impl"]
+    cov["rule"] = "stage 1 (encoder, per record): " + cov1["rule"] + " | stage 2 (simulations): " + cov2["rule"]
+    cov["stage2"] = {k: cov2[k] for k in ("evaluations", "distinct_nontrivial", "labels_compared", "mismatches", "spec_failures", "crashes")}
+    cov["samples"] = cov1["samples"][:2] + cov2["samples"][:1]
+    vlib.write_evidence("C19", tier, seed, cov, ASSUME, time.time() - t0, v1 + v2)
+    return 1 if (rc1 or rc2) else 0
